@@ -20,8 +20,8 @@ Definition tag_post (r : presult) (s' : st) : Prop := TInv s' /\ plain_res r.
 
 Lemma tag_post_step t r s' : is_chars t = false -> tag_post r s' -> step_post t r s'.
 Proof.
-  intros C [I R]. split; [|apply res_ok_nonchars; exact C].
-  destruct R as [->|[->|[[l ->]|[[k ->]| ->]]]]; exact I.
+  intros C [I R].
+  destruct R as [->|[->|[[l ->]|[[k ->]| ->]]]]; (split; [exact I | apply res_ok_nonchars; [exact C | exact Logic.I]]).
 Qed.
 Lemma tag_post_done r s' : is_done r s' -> tag_post r s'.
 Proof. intros [I ->]. split; [exact I | left; reflexivity]. Qed.
@@ -152,7 +152,7 @@ Proof.
   intros I L NS C. unfold ib_arm_9. rewrite wp_bind, wp_get.
   destruct (in_scope_named s default_scope (nm "body")).
   - rewrite wp_bind. eapply (wp_check_body_end s); [apply keeps_refl; exact I|]. intros s1 K1 _. rewrite wp_ret.
-    split; [|apply res_ok_nonchars; exact C]. split; [|discriminate]. pose proof K1 as [I1 S1].
+    split; [|apply res_ok_reprocess]. split; [|discriminate]. pose proof K1 as [I1 S1].
     apply (keeps_set_mode s); [exact K1 | eapply keeps_late; eassumption | rewrite (st_mode _ _ S1); exact NS | reflexivity | reflexivity | discriminate].
   - rewrite wp_bind, wp_parse_error, wp_ret. apply is_done_post. split; [eapply TInv_core_eq; [apply core_eq_set_out | exact I] | reflexivity].
 Qed.
@@ -888,7 +888,7 @@ Definition ib_cb (ih it self : body) : Prop :=
                head_matches t (nth 4 heads_in_body []) = true -> wp (ih t) (step_post t) s) /\
   (forall s, TInv s -> late s -> saving_mode (mode s) = false -> wp (it KEof) (step_post KEof) s) /\
   (forall s t, TInv s -> late s -> saving_mode (mode s) = false -> scalar_tok t -> is_start t = true ->
-               (tname t = nm "br" \/ tname t = nm "img") -> wp (self t) (step_post t) s).
+               (tname t = nm "br" \/ tname t = nm "img") -> wp (self t) tag_post s).
 
 Definition ib_arm_spec (k : nat) (b : body) : Prop :=
   forall s1 t, TInv s1 -> late s1 -> (saving_mode (mode s1) = false \/ is_chars t = true) -> scalar_tok t ->
@@ -1530,8 +1530,7 @@ Proof.
   destruct (head_named_prop _ _ _ F31 Hm) as (g & -> & Nbr). apply is_n_eq in Nbr.
     unfold ib_arm_31. rewrite wp_bind, wp_parse_error. cbn [tk_tag].
     eapply wp_mono; [apply HSelf; [eapply TInv_core_eq; [apply core_eq_set_out | exact I1] | exact L1 | apply NSof; reflexivity | constructor | reflexivity | left; exact Nbr]|].
-    intros r s' [P _]. split; [split; [|apply res_ok_nonchars; reflexivity] | intro X; discriminate].
-    destruct r; exact P.
+    intros r s' P. apply TagFin; [reflexivity | exact P].
 Qed.
 
 Lemma ib_spec_32 ih it self : ib_cb ih it self -> ib_arm_spec 32 (ib_arm_32 ih it self).
@@ -1630,8 +1629,7 @@ Proof.
     pose proof (head_all_start _ _ F36 Hm) as St.
     unfold ib_arm_36. rewrite wp_bind, wp_parse_error.
     eapply wp_mono; [apply HSelf; [eapply TInv_core_eq; [apply core_eq_set_out | exact I1] | exact L1 | apply NSof; reflexivity | exact Sc | exact St | right; reflexivity]|].
-    intros r s' [P _]. split; [split; [|apply res_ok_nonchars; reflexivity] | intro X; discriminate].
-    destruct r; exact P.
+    intros r s' P. apply TagFin; [reflexivity | exact P].
 Qed.
 
 Lemma ib_spec_37 ih it self : ib_cb ih it self -> ib_arm_spec 37 (ib_arm_37 ih it self).
@@ -2001,7 +1999,7 @@ Proof.
   intros I L NS T C. unfold switch_template_mode. rewrite wp_bind, wp_modify, wp_ret.
   pose proof (TInv_switch_template_mode s m I T) as I1.
   destruct (template_mode_props m T) as (Em & Sm & Hm).
-  split; [|apply res_ok_nonchars; exact C]. split; [|intro X; rewrite X in Sm; discriminate].
+  split; [|apply res_ok_reprocess]. split; [|intro X; rewrite X in Sm; discriminate].
   apply (keeps_set_mode (set_template_modes (vpush (vpop (template_modes s)) m) s)); [apply keeps_refl; exact I1 | exact L | exact NS | exact Em | exact Sm | rewrite Hm; discriminate].
 Qed.
 
@@ -2075,7 +2073,7 @@ Proof.
     set (s7 := set_mode m s6) in *.
     assert (L7 : late s7) by exact Em.
     eapply (wp_reset_insertion_mode s7); [apply keeps_refl; exact I7 | exact L7 |].
-    intros m2 s8 K8 _ Em2 Sm2 Hm2. rewrite wp_ret. split; [|apply res_ok_nonchars; reflexivity].
+    intros m2 s8 K8 _ Em2 Sm2 Hm2. rewrite wp_ret. split; [|apply res_ok_reprocess].
     split; [|intro X; rewrite X in Sm2; discriminate]. pose proof K8 as [I8 S8].
     apply (keeps_set_mode s7); [exact K8 | eapply keeps_late; eassumption | rewrite (st_mode _ _ S8); exact Sm | exact Em2 | exact Sm2 |].
     intro Hn'. rewrite (st_head _ _ S8). apply Hm2. exact Hn'.
